@@ -73,6 +73,58 @@ theorem canon_host (puny : Str → Str) (hp : PunyLaws puny) (quoted sf : Bool) 
     · simp [he]
     · simp [he, canonHost_idem puny hp]
 
+/-- **host, "same host up to letter case and IDNA spelling"**: label by label, the host of
+the result has the same ASCII-compatible (ACE) spelling as the host of the input (`hostKey`:
+`ace` = ToASCII + lower-casing of one label, the reference encoder).  Holds for every decoder
+that produces no dot and **keeps the name of every `xn--` label of this host**
+(`SameNameOn`: the decoded label re-encodes to the label it was given) — the obligation that
+the oracle evaluates on the real `decode_punycode_hostname` for every label of every case and
+for an enumerated class of ACE labels on every run.  `canon_host` above only says that the
+result is a fixed point of the host rule, which holds of ANY idempotent decoder, also of one
+that rewrites the host to another name. -/
+theorem canon_host_name (ace puny : Str → Str) (hp : PunyLaws puny)
+    (hl : ∀ l, ace (lower l) = ace l) (quoted sf : Bool) (p : Parsed)
+    (hs : ∀ h, p.hostname = some h → SameNameOn ace puny h) :
+    ((canonComps puny quoted sf p).host.map (hostKey ace)) = p.hostname.map (hostKey ace) := by
+  simp only [canonComps]
+  cases hh : p.hostname with
+  | none => rfl
+  | some h =>
+    by_cases he : h.isEmpty
+    · simp [he]
+    · simp [he, hostKey_canonHost ace puny hp hl h (hs h hh)]
+
+/-- the same under the law stated of all labels (`IdnaLaws`) -/
+theorem canon_host_key (ace puny : Str → Str) (hp : PunyLaws puny) (hi : IdnaLaws ace puny)
+    (quoted sf : Bool) (p : Parsed) :
+    ((canonComps puny quoted sf p).host.map (hostKey ace)) = p.hostname.map (hostKey ace) :=
+  canon_host_name ace puny hp hi.ace_lower quoted sf p (fun h _ => sameNameOn_of_laws hi h)
+
+/-- a toy codec pair for the examples: `xn--9ca` is `é` -/
+def punyDemo (x : Str) : Str := if x = "xn--9ca".toList then "é".toList else x
+def aceDemo (l : Str) : Str :=
+  if l = "é".toList then "xn--9ca".toList
+  else if l = "cafÉ".toList ∨ l = "café".toList then "xn--caf-dma".toList else lower l
+
+/-- non-vacuity: a host with a punycode label (upper-case header) between two ASCII labels satisfies the
+hypothesis, is rewritten, and keeps its key -/
+example :
+    SameNameOn aceDemo punyDemo "WWW.XN--9ca.Fr".toList ∧
+    canonHost punyDemo "WWW.XN--9ca.Fr".toList = "www.é.fr".toList ∧
+    hostKey aceDemo (canonHost punyDemo "WWW.XN--9ca.Fr".toList) = "www.xn--9ca.fr".toList ∧
+    hostKey aceDemo "WWW.XN--9ca.Fr".toList = "www.xn--9ca.fr".toList := by
+  decide +kernel
+
+/-- the hypothesis is needed: a decoder without the round-trip check (the bare punycode codec:
+`xn--caf-pia` is `cafÉ`, whose ACE spelling is `xn--caf-dma`) is idempotent on this host —
+`canon_host`'s conclusion holds — and leads to another name -/
+example :
+    let bare : Str → Str := fun x => if x = "xn--caf-pia".toList then "cafÉ".toList else x
+    ¬ SameNameOn aceDemo bare "xn--caf-pia.fr".toList ∧
+    canonHost bare (canonHost bare "xn--caf-pia.fr".toList) = canonHost bare "xn--caf-pia.fr".toList ∧
+    hostKey aceDemo (canonHost bare "xn--caf-pia.fr".toList) ≠ hostKey aceDemo "xn--caf-pia.fr".toList := by
+  decide +kernel
+
 /-- port: same effective port (only the scheme's own default port is dropped) -/
 theorem canon_port (puny : Str → Str) (quoted sf : Bool) (p : Parsed) :
     effPort p.scheme (canonComps puny quoted sf p).port = effPort p.scheme p.port := by
